@@ -1,11 +1,96 @@
 (* C03 — messages built from keyword attributes encode exactly the values supplied.
-   Proved: the per-field contract for integer fields and bit flags.  The full statement ("feeding the parsed values
-   back regenerates the payload, scaled fields included") is REFUTED on the unchanged tree by three recorded
-   findings, each with a witness evaluated on the model; outside them it is decided by correspondence + search. *)
+   Whole-definition statements: C03_payload (the payload is the concatenation of one encoding per field, values
+   from the keyword of the suffixed name or the nominal value), C03_build_parse (parsing the built payload gives
+   back the very trace and attribute dictionary of the build, for every value that its field can represent),
+   C03_build_parse_auto (no premise on values for integer / X / bitfield members), C03_construct_roundtrip (the
+   same at message level).  The statement for scaled fields is REFUTED on the unchanged tree by the recorded
+   findings, each with a witness evaluated on the model - which is why "representable" (rt_ok) is a premise. *)
 From PyUbx Require Import Base Bytes PyFloat Types Strs Walk Consts Tables Msg.
-From PyUbx Require Import Codec_lemmas Bits_lemmas Field_lemmas.
+From PyUbx Require Import Codec_lemmas Bits_lemmas Field_lemmas WfDef.
+From PyUbx Require Import Trace_lemmas Shape_lemmas Build_lemmas Roundtrip_lemmas Rt_auto Msg_rt.
 From Coq Require Import Floats.SpecFloat.
 Open Scope Z_scope.
+
+(* every definition list, every keyword dictionary, both bitfield views, every budget: the payload is exactly the
+   encodings of the fields, in definition order, each a function of that field's own value; a value is the keyword
+   under the field's suffixed name, else the nominal value; a bitfield is its flags OR-ed at their offsets *)
+Theorem C03_payload : forall cls id mode bf k bud ds s',
+  walk_list atttype readonly_names cfgdb storsize scalround cls id mode bf (Some k) bud ds []
+    {| w_off := O; w_pay := []; w_attrs := []; w_trace := [] |} = Ok s' ->
+  chain O (rev (w_trace s')) (w_off s') /\ Forall (from_kw k) (w_trace s') /\
+  enc_all atttype (rev (w_trace s')) = Ok (w_pay s').
+Proof. exact (build_from_empty atttype readonly_names cfgdb storsize scalround). Qed.
+Print Assumptions C03_payload.
+
+(* build, then parse the payload built: same records (names, index paths, offsets, widths, kinds, values), same
+   attribute dictionary, whole payload consumed - provided each supplied value decodes from its own encoding *)
+Theorem C03_build_parse : forall cls id mode bf k bud ds sB',
+  Forall static ds ->
+  walk_list atttype readonly_names cfgdb storsize scalround cls id mode bf (Some k) bud ds []
+    {| w_off := O; w_pay := []; w_attrs := []; w_trace := [] |} = Ok sB' ->
+  Forall (rt_ok atttype scalround) (w_trace sB') ->
+  exists sP', walk_list atttype readonly_names cfgdb storsize scalround cls id mode bf None bud ds []
+                {| w_off := O; w_pay := w_pay sB'; w_attrs := []; w_trace := [] |} = Ok sP' /\
+              w_trace sP' = w_trace sB' /\ w_attrs sP' = w_attrs sB' /\ w_off sP' = length (w_pay sB').
+Proof.
+  intros cls id mode bf k bud ds sB' Hst H Hrt.
+  exact (build_parse atttype readonly_names cfgdb storsize scalround cls id mode bf k bud (w_pay sB') ds sB' Hst H eq_refl Hrt).
+Qed.
+Print Assumptions C03_build_parse.
+
+(* integer (E/I/L/U of any width), X and bitfield members need no premise: a build that succeeds round-trips *)
+Theorem C03_build_parse_auto : forall cls id mode bf k bud ds sB',
+  is_cfgval cls id mode = false -> Forall static ds -> Forall (leaves auto_kind) ds ->
+  walk_list atttype readonly_names cfgdb storsize scalround cls id mode bf (Some k) bud ds []
+    {| w_off := O; w_pay := []; w_attrs := []; w_trace := [] |} = Ok sB' ->
+  exists sP', walk_list atttype readonly_names cfgdb storsize scalround cls id mode bf None bud ds []
+                {| w_off := O; w_pay := w_pay sB'; w_attrs := []; w_trace := [] |} = Ok sP' /\
+              w_trace sP' = w_trace sB' /\ w_attrs sP' = w_attrs sB' /\ w_off sP' = length (w_pay sB').
+Proof. exact (build_parse_auto readonly_names cfgdb storsize scalround). Qed.
+Print Assumptions C03_build_parse_auto.
+
+(* message level: UBXMessage(cls, id, mode, **kw) then UBXMessage(cls, id, mode, payload=its payload) *)
+Theorem C03_construct_roundtrip : forall cls id mode bf a m ds,
+  a <> [] ->
+  construct cls id mode bf (KwAttrs a) = Ok m ->
+  get_dict cls id mode (KwAttrs a) [] = Ok ds ->
+  rt_defb ds = true -> is_cfgval cls id mode = false ->
+  exists p, m_payload m = Some p /\
+    (get_dict cls id mode (KwPayload p) p = Ok ds ->
+     exists m', construct cls id mode bf (KwPayload p) = Ok m' /\
+                m_attrs m' = m_attrs m /\ m_payload m' = Some p /\ serialize m' = serialize m).
+Proof. exact construct_roundtrip. Qed.
+Print Assumptions C03_construct_roundtrip.
+
+(* outside the variant selectors and the MGA class the selected definition cannot differ *)
+Theorem C03_construct_roundtrip_plain : forall cls id mode bf a m ds,
+  a <> [] ->
+  variant_lookup mode (cls ++ id) variants = None -> beq cls [19%N] && negb (beq id [128%N]) = false ->
+  construct cls id mode bf (KwAttrs a) = Ok m ->
+  get_dict cls id mode (KwAttrs a) [] = Ok ds ->
+  rt_defb ds = true -> is_cfgval cls id mode = false ->
+  exists p m', m_payload m = Some p /\ construct cls id mode bf (KwPayload p) = Ok m' /\
+               m_attrs m' = m_attrs m /\ serialize m' = serialize m.
+Proof. exact construct_roundtrip_plain. Qed.
+Print Assumptions C03_construct_roundtrip_plain.
+
+(* non-vacuity: how many shipped (mode, definition) entries pass the decider rt_defb, and one concrete message
+   (CFG-MSG SET, 06 01: msgClass, msgID, rateDDC..) meeting every premise of the plain statement *)
+Example C03_rt_entries_many : Nat.leb 300 (length rt_entries) = true.
+Proof. vm_compute. reflexivity. Qed.
+Example C03_roundtrip_premises_met :
+  let a := [("msgClass", PInt 1); ("msgID", PInt 7); ("rateUART1", PInt 3)]%string in
+  a <> [] /\ variant_lookup 1%N ([6%N] ++ [1%N]) variants = None /\
+  beq [6%N] [19%N] && negb (beq [1%N] [128%N]) = false /\
+  (exists m ds, construct [6%N] [1%N] 1%N true (KwAttrs a) = Ok m /\
+                get_dict [6%N] [1%N] 1%N (KwAttrs a) [] = Ok ds /\ rt_defb ds = true /\
+                serialize m = [181; 98; 6; 1; 8; 0; 1; 7; 0; 3; 0; 0; 0; 0; 26; 235]%N) /\
+  is_cfgval [6%N] [1%N] 1%N = false.
+Proof.
+  cbv zeta. split; [discriminate|]. split; [vm_compute; reflexivity|]. split; [reflexivity|].
+  split; [|reflexivity]. eexists. eexists. split; [vm_compute; reflexivity|]. split; [vm_compute; reflexivity|].
+  split; vm_compute; reflexivity.
+Qed.
 
 Theorem C03_int_field_roundtrip : forall l w z,
   is_int_letter l = true -> (0 < w)%nat -> in_range (l =? lI)%N w z ->
